@@ -19,8 +19,9 @@ DESIGN.md section 5 (grammar `spell(fmt, A)`), NOT from the parser's code:
 
 clikit is imported lazily (the checker decides which tree is on sys.path).
 """
+import hashlib
 import itertools
-import traceback
+import json
 
 MODES = ("flag", "req", "opt", "multi")
 TYPES = ("str", "bool", "int", "float")
@@ -682,6 +683,11 @@ def random_format(rng, max_opts=5, max_args=4):
     return fmt_spec(names, opts, args, base)
 
 
+def fid(spec):
+    """short content hash of a format spec (case keys)"""
+    return hashlib.blake2b(json.dumps(spec, sort_keys=True).encode(), digest_size=6).hexdigest()
+
+
 def fmt_nontrivial(spec):
     return bool(spec["opts"] or spec["args"] or spec["names"])
 
@@ -897,6 +903,23 @@ def soup_formats():
         ("names-base", fmt_spec((("word", ("w",)), ("add", ("7",))), opts("str", "float", "str", odef=2.5, shorts=False),
                                 [arg_spec("first", "req"), arg_spec("cmd11", "opt", "float")], base=[1, 2, 1])),
     ]
+
+
+def derived_alphabet(spec, rng):
+    """adversarial tokens built from the format's own names"""
+    al = ["", "-", "--", "---", "--=", "-=", "-5", "null", "word", "7", "--nope", "--nope=1", "-Z", "true", "abc"]
+    shorts = ""
+    for o in spec["opts"]:
+        lg, sh = o["long"], o["short"]
+        al += ["--" + lg, "--%s=" % lg, "--%s=%s" % (lg, rng.choice(opt_values(o["type"], o["nullable"]))), "--%s=abc" % lg]
+        if sh:
+            shorts += sh
+            al += ["-" + sh, "-%s%s" % (sh, rng.choice(["1", "x", "=", "-"])), "--" + sh]
+    if shorts:
+        al += ["-" + shorts, "-" + shorts[::-1], "-" + shorts[0] + "Z" + shorts[1:]]
+    for n, aliases in spec["names"]:
+        al += [n] + list(aliases)
+    return al
 
 
 PARSE_ERRORS = ("CannotParseArgsException", "NoSuchOptionException")
